@@ -269,13 +269,14 @@ AggRow(rows, keys, spec, g) ==
             [] spec[j].op = "countd" -> Cell("I", Cardinality({rows[i][spec[j].i] : i \in I}))
             [] spec[j].op = "sum"    -> Cell(rows[any][spec[j].i].k, SumSet(rows, spec[j].i, I))]
 \* sums are judged only when every cell of the summed column is of one numeric kind
-\* ... and no int64 cell is one of the numbers beyond TLC's integers (BqlU.BIGINT: abstract stand-ins, ordered like
-\* the numbers they stand for but not summable)
+\* ... and at most three int64 cells are numbers beyond TLC's integers (BqlU.BIGINT: abstract stand-ins, ordered like
+\* the numbers they stand for and additive for up to three of them, see harness/bqlu IntAbstract)
 SumJudgeable(rows, keys, spec) ==
     \A j \in DOMAIN spec : spec[j].op = "sum" =>
         /\ \E k \in {"I", "F"} : \A i \in DOMAIN rows : rows[i][spec[j].i].k = k
-        /\ \A i \in DOMAIN rows : rows[i][spec[j].i].k = "I" =>
-               (rows[i][spec[j].i].v < BIGINT /\ rows[i][spec[j].i].v > 0 - BIGINT)
+        \* at most three stand-ins per column: q * BIGINT + r stands for q * 2^53 + r, additive up to q = 3 (32-bit integers)
+        /\ Cardinality({i \in DOMAIN rows : rows[i][spec[j].i].k = "I" /\
+                            (rows[i][spec[j].i].v >= BIGINT \/ rows[i][spec[j].i].v <= 0 - BIGINT)}) <= 3
 GroupOK(grouped, rows, keys, spec) ==
     LET exp == {AggRow(rows, keys, spec, g) : g \in GroupsOf(rows, keys)}
     IN  /\ Len(grouped) = Cardinality(GroupsOf(rows, keys))       \* exactly one row per group
